@@ -426,6 +426,12 @@ where
         value: impl Borrow<Self::Input>,
     ) -> (usize, Self::Output) {
         let value = *value.borrow();
+        if value > self.u {
+            // All elements are smaller than or equal to u, so the predecessor
+            // (strict or not) is the last element; moreover, there are just
+            // (u >> l) + 1 zeros in the upper bits
+            return self.pred_unchecked::<false>(self.u);
+        }
         let zeros_to_skip = value >> self.l;
         let mut bit_pos = self.high_bits.select_zero_unchecked(zeros_to_skip) - 1;
 
